@@ -21,6 +21,7 @@ CONV = [("ArrayFilter3DUsingConvolution", 3), ("ArrayFilter2DUsingConvolution", 
 def requests():
     r = [Request(B + c + ".cxx", fn=["stir::%s::do_it" % c], files=["/repo/src/buildblock/%s\\.cxx" % c]) for c, _n in CONV]
     r.append(Request("src/numerics_buildblock/fourier.cxx", fn=["stir::inverse_fourier$", "stir::inverse_fourier_1d$"], files=["/repo/src/include/stir/numerics/fourier.h"]))
+    r.append(Request(B + "ArrayFilterUsingRealDFTWithPadding.cxx", fn=["stir::ArrayFilterUsingRealDFTWithPadding::do_it", "stir::transform_array_(to|from)_periodic_indices"], files=["/repo/src/buildblock/ArrayFilterUsingRealDFTWithPadding.cxx", "/repo/src/include/stir/ArrayFunction.inl"]))
     return r
 
 
@@ -135,6 +136,84 @@ def rule_b(ctx, fns):
     return n
 
 
+def rule_c_padded_route(ctx, fns):
+    """The padded-DFT filter equals the convolution only if data enter and leave the periodic (0-based, padded) array through the modulo
+    map, for ANY index range of input and output:
+      c1  do_it, when its arguments are not already in padded form: a fresh array of the padding range is filled by
+          transform_array_to_periodic_indices(padded, input), filtered in place by do_it(padded, padded), and the output is read back by
+          transform_array_from_periodic_indices(output, padded) - in this order, on every path, nothing else writing the padded array
+      c2  the two transforms are the modulo map and its dual: to:  periodic[modulo(i, sizes)] = in[i] for every index i of `in`;
+          from: out[i] = periodic[modulo(i, sizes)] for every index i of `out`; sizes = extent of the periodic array"""
+    from engine.cfg import CFG
+    from engine.tree import root_of_lvalue, written_lvalues
+
+    n = 0
+    seen = set()
+    for f in fns:
+        if f.short != "do_it" or f.cls is None or "RealDFTWithPadding" not in f.cls or f.body is None or f.is_dependent or not f.cfg_raw or len(f.params) != 2 or (f.file, f.line) in seen:
+            continue
+        seen.add((f.file, f.line))
+        cfg = CFG(f)
+        outp, inp = "v%d" % f.params[0]["d"], "v%d" % f.params[1]["d"]
+        to = [c for c in f.calls() if (c.callee or "") == "stir::transform_array_to_periodic_indices" and c.i in cfg.pos]
+        fr = [c for c in f.calls() if (c.callee or "") == "stir::transform_array_from_periodic_indices" and c.i in cfg.pos]
+        rec = [c for c in f.calls() if (c.callee or "").endswith("::do_it") and len(c.call_args()) == 2 and key(c.call_args()[0].strip()) == key(c.call_args()[1].strip()) and c.i in cfg.pos]
+        fid = f.qn + "<%s>" % (f.params[0]["t"].split("<")[1].split(",")[0] if "<" in f.params[0]["t"] else "")
+        ok, det = False, "expected one to_periodic, one in-place do_it and one from_periodic call"
+        if len(to) == 1 and len(fr) == 1 and len(rec) == 1:
+            P = key(rec[0].call_args()[0].strip())
+            d = rec[0].call_args()[0].strip().get("d")
+            vd = [m for m in f.walk() if m.k == "VarDecl" and m.get("d") == d]
+            fresh = bool(vd) and vd[0].c and vd[0].c[0].strip().k == "CXXConstructExpr" and [key(x.strip()) for x in vd[0].c[0].strip().c] == ["this.padding_range"]
+            args_ok = [key(x.strip()) for x in to[0].call_args()] == [P, inp] and [key(x.strip()) for x in fr[0].call_args()] == [outp, P]
+            order = cfg.dominates(to[0], rec[0]) and cfg.dominates(rec[0], fr[0])
+            # every path from the construction of the padded array to the filtering passes the periodic copy; and from there to the exit the read-back
+            g = vd[0] if vd else None
+            while g is not None and g.i not in cfg.pos:
+                g = g.parent
+            allpaths = g is not None and cfg.paths_avoiding([cfg.pos[g.i]], lambda x: x.i == to[0].i, target_pred=lambda x: x.i == rec[0].i, to_exit=False) is None and cfg.must_pass_before_exit([rec[0]], lambda x: x.i == fr[0].i) is None
+            others = [m for m in f.walk() if m.i in cfg.pos and m.i not in (to[0].i, rec[0].i, fr[0].i) and (g is None or m.i != g.i) and any(root_of_lvalue(e) == P for e in written_lvalues(m))]
+            others = [m for m in others if not (m.k == "VarDecl" or m.k == "DeclStmt")]
+            ok = fresh and args_ok and order and allpaths and not others
+            det = "fresh array of the padding range <- to_periodic(input) -> do_it in place -> from_periodic(output), on every path" if ok else "padded route: fresh padded array=%s, arguments=%s, order=%s, on every path=%s, other writes to the padded array=%s" % (fresh, args_ok, order, allpaths, [m.line for m in others])
+        ctx.ob("C19.c-padded-route-through-modulo-map", fid, "copy-in-filter-copy-out", ok, f.where(), det)
+        n += 1
+    seen = set()
+    for f in fns:
+        if f.short not in ("transform_array_to_periodic_indices", "transform_array_from_periodic_indices") or f.body is None or f.is_dependent or len(f.params) != 2 or f.short in seen:
+            continue
+        seen.add(f.short)
+        defs = LocalDefs(f)
+        sub = {d: defs.single_def(d) for d in defs.decl}
+        outp, inp = "v%d" % f.params[0]["d"], "v%d" % f.params[1]["d"]
+        periodic, plain = (outp, inp) if f.short.endswith("to_periodic_indices") else (inp, outp)
+        asg = [m for m in f.walk() if m.k in ("BinaryOperator", "CXXOperatorCallExpr") and m.op == "=" and len(m.c) >= 2 and key(_chain(m.c[-2])[0]) == outp]
+        ok, det = False, "expected one element assignment"
+        if len(asg) == 1:
+            lhs, rhs = _chain(asg[0].c[-2]), _chain(asg[0].c[-1])
+            loopv = [x for x in (lhs[1] + rhs[1]) if x.k == "DeclRefExpr"]
+            iv = key(loopv[0]) if loopv else None
+            want_mod = None
+            if iv is not None:
+                pidx = (lhs if periodic == outp else rhs)[1]
+                qidx = (rhs if periodic == outp else lhs)[1]
+                mk_ = key(pidx[0], False, sub) if pidx else ""
+                mm = re.fullmatch(r"stir::modulo\(%s,(.*)\)" % re.escape(iv), mk_)
+                sizes_ok = mm is not None and re.search(r"\(\+ \(- [^ ]+ [^ ]+\) 1\)|\(- \(\+ [^ ]+ 1\) [^ ]+\)", mm.group(1)) is not None
+                plain_ok = len(qidx) == 1 and key(qidx[0]) == iv and key(rhs[0]) == inp
+                # the index walks over the NON-periodic array: starts at its minimum indices and is advanced by next(index, that array)
+                vd = defs.decl.get(loopv[0].get("d"))
+                start_ok = vd is not None and vd.c and key(vd.c[0].strip()) == "stir::get_min_indices(%s)" % plain
+                nxt = [c for c in f.calls() if (c.callee or "") == "stir::next" and [key(a.strip()) for a in c.call_args()] == [iv, plain]]
+                # the sizes come from the periodic array's regular range
+                rr = [c for c in f.calls() if (c.callee or "").endswith("::get_regular_range") and key(c.c[0].strip()) == periodic and c.parent is not None]
+                ok = mm is not None and sizes_ok and plain_ok and start_ok and len(nxt) == 1 and bool(rr)
+                det = "%s[modulo(i, sizes)] %s %s[i] for every index i of the non-periodic array" % ("periodic", "=" if periodic == outp else "->", "in" if periodic == outp else "out") if ok else "not the modulo map over the whole non-periodic array: modulo(index, sizes)=%s sizes=extent=%s plain side=%s start=%s next=%s sizes from the periodic array=%s" % (mm is not None, sizes_ok, plain_ok, start_ok, len(nxt) == 1, bool(rr))
+        ctx.ob("C19.c-padded-route-through-modulo-map", "stir::" + f.short, "modulo-map", ok, f.where(), det)
+        n += 1
+    return n
+
+
 def run(ctx):
     ctx.explanation = (
         "Decides two structural clauses: (a) in the direct-convolution filters (1D, 2D, 3D) the loop of every kernel index runs exactly over "
@@ -156,5 +235,7 @@ def run(ctx):
             continue
         rule_a(ctx, fs[0], ndim, cls)
     rule_b(ctx, us[3].functions)
+    rule_c_padded_route(ctx, us[4].functions)
+    ctx.require_count("C19.c-padded-route-through-modulo-map", 3)
     ctx.require_count("C19.a-convolution-index-bounds", 6)
     ctx.require_count("C19.b-inverse-is-forward-with-opposite-sign-over-n", 2)
